@@ -103,6 +103,11 @@ func (p c15) chunks(c *fw.Ctx, stmts []string, split []bool) {
 	once := strings.Join(stmts, ";\n")
 	o1, g1, f1 := run([]string{once})
 	if f1 {
+		// evaluating at once fails: if feeding the statements one by one succeeds, the two ways disagree
+		if _, _, fAll := run(stmts); !fAll {
+			c.Violate("at-once-error", "chunks:at-once-error", c15Case{Kind: "chunks", Chunks: stmts}, "the script fails when evaluated at once but succeeds statement by statement")
+			return
+		}
 		c.Count("scripts_with_errors_skipped", 1)
 		return
 	}
@@ -136,6 +141,8 @@ var c15MacroScripts = [][]string{
 	{"m1 = macro(x) {quote(unquote(x) + 1)}", "a = m1(2)", "println(a, m1(a))", "func f(y) {m1(y) * 2}", "println(f(3))"},
 	{"unless = macro(c, t, e) {quote(if !(unquote(c)) {unquote(t)} else {unquote(e)})}", "v = unless(1 > 2, \"yes\", \"no\")", "println(v)", "w = unless(true, println(\"not printed\"), 7)"},
 	{"two = macro() {quote(2)}", "x = two() + two()", "for i = two() {println(i, x)}"},
+	{"ma = macro(x) {quote(unquote(x) + 1)}", "mb = macro(y) {quote(unquote(y) * 3)}", "mc = macro() {quote(5)}", "println(ma(1), mb(2), mc())", "z = ma(mb(mc()))"},
+	{"v0 = 1", "ma = macro(x) {quote(unquote(x) - 1)}", "mb = macro(x, y) {quote([unquote(x), unquote(y)])}", "println(mb(ma(v0), v0))"},
 }
 
 func (p c15) RunBatch(c *fw.Ctx) {
